@@ -8,6 +8,7 @@ import (
 	"github.com/google/pprof/profile"
 	"github.com/google/pprof/xverif/gen"
 	"github.com/google/pprof/xverif/model"
+	"github.com/google/pprof/xverif/pp"
 	"github.com/google/pprof/xverif/vk"
 	"pgregory.net/rapid"
 )
@@ -218,4 +219,78 @@ func checkBulk(c *bulkCase, o *vk.Obs) []string {
 func TestPropBulk(t *testing.T) {
 	vk.Main(t, vk.Spec[bulkCase]{ID: "C01", Facet: "bulk", Quick: 25, Thorough: 120, Gen: genBulk, Check: checkBulk,
 		Rule: "small generated profiles whose samples are repeated 500..150000 times (raw size up to several MB, compressed several hundred times smaller) through Write/Parse, Write/ParseData and WriteUncompressed/ParseData; oracle: same sample count and same structural snapshot; non-trivial = compression ratio >= 100"})
+}
+
+// ---- facet proto: the report layer's -proto output (what 'pprof -proto' and the interactive 'proto' write) ----
+
+type protoCase struct {
+	P *gen.Prof
+}
+
+var protoOpts = gen.Opts{Alpha: gen.Plain, MaxSamples: 8, MaxDepth: 4, MaxLines: 3, MinTypes: 1, MaxTypes: 3, Extreme: true, AnyIDs: true, NoHugeIDs: true,
+	Labels: true, NumLabels: true, EmptyStacks: true, Unsym: true, Columns: true, Folded: true}
+
+func genProto(t *rapid.T) *protoCase { return &protoCase{P: gen.Profile(t, protoOpts)} }
+
+func checkProto(c *protoCase, o *vk.Obs) []string {
+	var e vk.Errs
+	classify(c.P, o)
+	gp := *c.P
+	gp.DropFrames, gp.KeepFrames = "", "" // pruning is C11's subject
+	p := gp.Build().Copy()                // what pprof is given is a parsed profile
+	if len(p.SampleType) == 0 {
+		return nil
+	}
+	res := pp.Run(pp.Req{Flags: map[string]string{"proto": "true", "output": "out"}, Args: []string{"src"}, Sources: map[string]*pp.Source{"src": {Prof: p}}})
+	if res.Panic != "" {
+		return []string{"pprof panicked: " + res.Panic}
+	}
+	if res.Err != nil {
+		if len(p.Sample) == 0 {
+			return nil
+		}
+		e.Addf("pprof -proto failed on a valid profile: %v", res.Err)
+		return e
+	}
+	out, err := profile.ParseData([]byte(res.Out("out")))
+	if err != nil {
+		return []string{"pprof -proto output does not parse: " + err.Error()}
+	}
+	extreme := false
+	for _, s := range p.Sample {
+		for _, v := range s.Value {
+			if v > 1<<53 || v < -(1<<53) {
+				extreme = true
+			}
+		}
+	}
+	o.LabelIf(extreme, "value-beyond-2^53")
+	o.NonTrivial = len(p.Sample) > 0
+	if len(out.Sample) != len(p.Sample) {
+		e.Addf("-proto wrote %d samples for a profile of %d", len(out.Sample), len(p.Sample))
+		return e
+	}
+	for i, s := range p.Sample {
+		g := out.Sample[i]
+		if fmt.Sprint(g.Value) != fmt.Sprint(s.Value) {
+			e.Addf("-proto: sample %d has values %v, the profile has %v", i, g.Value, s.Value)
+		}
+		if a, b := model.StackKey(s, false), model.StackKey(g, false); a != b {
+			e.Addf("-proto: sample %d: stack/labels differ:\n   profile %s\n   output  %s", i, a, b)
+		}
+	}
+	for i, st := range p.SampleType {
+		if i >= len(out.SampleType) || out.SampleType[i].Type != st.Type || out.SampleType[i].Unit != st.Unit {
+			e.Addf("-proto: sample type %d differs", i)
+		}
+	}
+	if out.Period != p.Period || out.TimeNanos != p.TimeNanos || out.DurationNanos != p.DurationNanos {
+		e.Addf("-proto: period/time/duration differ: %d/%d/%d vs %d/%d/%d", out.Period, out.TimeNanos, out.DurationNanos, p.Period, p.TimeNanos, p.DurationNanos)
+	}
+	return e
+}
+
+func TestPropProto(t *testing.T) {
+	vk.Main(t, vk.Spec[protoCase]{ID: "C01", Facet: "proto", Quick: 2000, Thorough: 15000, Gen: genProto, Check: checkProto, Journal: true,
+		Rule: "generated profiles (extreme int64 values, sparse ids, labels with units, inline lines, empty stacks, unsymbolized frames) written by the driver's -proto report with no filter set, and parsed back; oracle: same samples in the same order with the same values, stacks (binary, relative address, folded flag, every inline line) and labels, same sample types, period, time and duration; non-trivial = the profile has samples"})
 }
